@@ -254,7 +254,8 @@ def emission_exact(led, rid, ctx):
                   "exact on %d (root record, record) pairs" % checked,
                   "SimpleIntegerDomain::add_domain_description_to_vector (%s) %s" % (mode, bad or "could not be evaluated"))
     # ORDER: holes are pushed off the bounds before the redundant ones are dropped
-    g = lib.method("SemanticMinimiser", "apply_predicates")
+    from .shared import method_view as _mv
+    g = _mv(lib, "SemanticMinimiser", "apply_predicates", keep=("propagate_holes_on_lower_bound", "propagate_holes_on_upper_bound", "remove_redundant_holes", "update_consistency", "tighten_lower_bound", "tighten_upper_bound", "add_hole", "assign", "set_lower_bound", "set_upper_bound", "insert", "grow"))
     cfg = g.cfg
     def one(nm):
         cs = g.calls_named(nm)
